@@ -39,6 +39,6 @@ for i, l in enumerate(cur):
         d = json.loads(l)
         u = upd.get((d['property'], d['signature']))
         if u and d['status'] == 'known':
-            d['exemplar'], d['exemplar_signature'] = u['exemplar'], u['exemplar_signature']
+            d['exemplar'], d['exemplar_signature'] = u['exemplar'], u.get('exemplar_signature', '')
             cur[i] = json.dumps(d)
 open(kf, 'w').write('\n'.join(cur))
